@@ -183,9 +183,7 @@ func runEntry(e int, b []byte) iso.Outcome {
 			if err != nil {
 				return err
 			}
-			if info.Statistics != nil {
-				_ = info.ChannelCounts()
-			}
+			_ = info.ChannelCounts()
 			_ = info.CanReadMessagesUsingIndex()
 			return nil
 		case 6:
